@@ -45,6 +45,7 @@ func fullProfile0(t *tape.Tape, flagCount uint32) app.Profile {
 		Unicode: t.Chance(1, 3),
 		ManySyms: t.Chance(1, 25),
 		CatchLoad: t.Chance(1, 3),
+		Refresh: t.Chance(1, 3),
 	}
 }
 
